@@ -116,10 +116,59 @@ let run_wf (io : 'k kio) cmp t line : string =
         string_of_int (int_of_z (wf_code cmp (z_of_int t) tree)) ^ ":[" ^ show_pairs io (nn_abs tree) ^ "]"
       with _ -> "?parse")) (String.split_on_char ';' line))
 
+(* ---- name trees on the STORED strings (Struct/NNKeys.v): the starting tree's keys are the raw bytes of the string
+   objects, keys of calls arrive as UTF-8 and become string objects through newUnicodeString (as in
+   QPDFNameTreeObjectHelper::insert/find/remove/insertAfter), the comparison is the modelled compareKeys.  Results and
+   dumps are shown through getUTF8Value, as the driver shows them. *)
+let seal_root_raw (root : n list nnode) : n list nnode =
+  (* /Limits of a generator-made tree: first and last STORED key beneath every non-root node (no comparison involved) *)
+  seal_root root
+
+let run_model_raw ?(spell = false) t init ops every : string =
+  let io = kio_name in
+  let root = seal_root_raw (parse_tree io init) in
+  let raw_op (op : n list nnop) : n list nnop = match op with
+    | OpInsert (k, v) -> OpInsert (jm_new_unicode_string k, v)
+    | OpRemove k -> OpRemove (jm_new_unicode_string k)
+    | OpFind k -> OpFind (jm_new_unicode_string k)
+    | OpFindLE k -> OpFindLE (jm_new_unicode_string k)
+    | OpInsAfter (k, v) -> OpInsAfter (jm_new_unicode_string k, v)
+    | o -> o in
+  let out = nk_run_raw (z_of_int t) root (List.map raw_op (parse_ops io ops)) in
+  let view_res (r : n list nnres) : n list nnres = match r with
+    | RIter (Some (k, v)) -> RIter (Some (nk_utf8_value k, v))
+    | r -> r in
+  let b = Buffer.create 4096 in
+  let nops = List.length out in
+  List.iteri (fun i ((r, w), tree) ->
+    if i > 0 then Buffer.add_char b ';';
+    Buffer.add_string b (show_res io (view_res r));
+    let w = int_of_z w in
+    if w > 0 then Buffer.add_string b ("w" ^ string_of_int w);
+    Buffer.add_char b '@';
+    if every <= 1 || (i + 1) mod every = 0 || i + 1 = nops then show_tree io b (if spell then tree else nk_view_node tree)
+    else Buffer.add_char b '#') out;
+  Buffer.contents b
+
+let () =
+  (* nncmp h<hex>,h<hex>,... : U:<utf8 values>|C:<rows of the modelled compareKeys on all ordered pairs> *)
+  register "nncmp" (fun args -> match args with
+    | [ks] ->
+      let keys = List.map kio_name.pk (String.split_on_char ',' ks) in
+      let rows = nk_compare_matrix keys in
+      "U:" ^ String.concat "," (List.map (fun k -> kio_name.sk (nk_utf8_value k)) keys) ^ "|C:" ^
+      String.concat "/" (List.map (fun row -> String.concat "" (List.map (fun c -> String.make 1 (Char.chr (int_of_n c))) row)) rows)
+    | _ -> "?args");
+  register "nku8" (fun args -> match args with
+    | [k] -> kio_name.sk (nk_utf8_value (kio_name.pk k))
+    | _ -> "?args")
+
 let () =
   register "nn" (fun args -> match args with
     | kind :: t :: init :: ops :: rest ->
       let every = match rest with [e] -> int_of_string e | _ -> 1 in
+      if kind = "nameraw" then run_model_raw (int_of_string t) init ops every else
+      if kind = "namespell" then run_model_raw ~spell:true (int_of_string t) init ops every else
       if kind = "name" then run_model kio_name nn_scmp (int_of_string t) init ops every
       else run_model kio_num nn_zcmp (int_of_string t) init ops every
     | _ -> "?args");
